@@ -607,7 +607,7 @@ def gen_run(rng, tier):
         fam = sc["family"]
     else:
         sc = pool.make_scenario(
-            rng, ["expr", "expr", "stmt", "stmt", "nullable", "lexamb", "rec", "amb", "random"]
+            rng, ["expr", "expr", "stmt", "stmt", "nullable", "lexamb", "rec", "amb", "random", "unprod"]
         )
         versions = [{"g.pg": t} for t in sc["texts"]]
         # recognizers are Python callables given in code, not files: no cache can
